@@ -1,7 +1,17 @@
 """C01 -- L-BFGS/BFGS solve well-conditioned smooth convex problems, truthfully.
-Shares the model (coq/theories/C02_Defs.v), the harness (harness/c02_solver.cpp, mode c01), the driver and the
-machinery of tools/checks/c02.py."""
+Stage 1 shares the model (coq/theories/C02_Defs.v), the harness (harness/c02_solver.cpp, mode c01), the driver and the
+machinery of tools/checks/c02.py.
+Stage 2 (C01Q, "quasi-Newton algebra"): the inverse-Hessian updates of src/solver/quasi.cpp and the two-loop recursion of
+src/solver/lbfgs.cpp as an exact-rational Coq model (coq/theories/C01Q_*.v, Properties_C01Q.v) tied to the
+ev_quasi_update / ev_lbfgs_direction hook events of the real solvers (harness/c01_quasi.cpp, ocaml/c01q_driver.ml)."""
+import collections
+import json
+import os
+import re
+import shlex
+import time
 import c02
+import vlib
 
 MANIFEST = dict(
     text=("Coq theorems: (1) truthfulness of `converged` for every done()-event trace of a line-search solver accepted by "
@@ -9,26 +19,223 @@ MANIFEST = dict(
           "and that flag equals gradient_test(snapshot) < epsilon recomputed bit-exactly in binary64, whatever direction, "
           "step initialisation and line-search rule did (oracles); the done() decision is translated from solver.cpp on "
           "every run; (2) over R, the error bound |x-x*|_2 <= sqrt(n) eps max(1,|f|)/lambda_min for every strongly convex "
-          "quadratic from the gradient criterion (Cauchy-Schwarz proved). Tie: all 17 line-search solvers x lsearch0 x "
-          "lsearchk x tolerances x epsilon run on the registered smooth functions and generated quadratics with the "
-          "NANO_VERIF done() hooks; every trace must be accepted. Direct oracle with a recording wrapper function: the "
-          "criterion recomputed at the returned point (recorded and fresh evaluation); L-BFGS/BFGS on random quadratics "
-          "s*Q*diag*Q' (kappa<=1e3, n<=16) must converge within 1500 evaluations with the error bound -- that clause is "
-          "searched, not proved."),
-    note=("Coq kernel; Flocq + FloatAxioms, Coq reals; translator; extraction (ExtrOcamlBasic + ExtrOCamlFloats); harness + "
-          "OCaml driver; NANO_VERIF hooks in solver.cpp (add-only); Eigen linear algebra of lbfgs/quasi not modelled; NDEBUG build."),
-    technique="Coq proof over an extracted trace acceptor + real-analysis bound, trace acceptance of the instrumented solvers, direct oracle",
+          "quadratic from the gradient criterion (Cauchy-Schwarz proved); (3) the quasi-Newton algebra, over every ordered "
+          "field (instances: canonical rationals, R), all dimensions: the SR1 / DFP / BFGS / Hoshino / Fletcher updates of "
+          "quasi.cpp as written satisfy the secant equation and preserve symmetry; BFGS, DFP, their convex combinations "
+          "(Hoshino; Fletcher's switch) preserve positive definiteness when s'y > 0, hence -H g is a descent direction; the "
+          "two-loop recursion of lbfgs.cpp equals H_k g with H_k the BFGS updates of (s'y/y'y) I over the stored pairs, "
+          "oldest to newest, hence a descent direction when every stored pair has s'y > 0. Tie: all 17 line-search solvers "
+          "x lsearch0 x lsearchk x tolerances x epsilon run on the registered smooth functions and generated quadratics with "
+          "the NANO_VERIF done() hooks; every trace must be accepted; every ev_quasi_update / ev_lbfgs_direction event of "
+          "bfgs/dfp/sr1/hoshino/fletcher (both initialisations) and lbfgs (history 1..30) is recomputed by the extracted "
+          "exact model (1e-9 relative to the running error bound of the summed terms) and the proved properties (secant, "
+          "symmetry, positive definiteness by exact LDL', descent, history bound) are evaluated on the implementation's own "
+          "numbers. Direct oracle with a recording wrapper function: the criterion recomputed at the returned point; "
+          "L-BFGS/BFGS on random quadratics s*Q*diag*Q' (kappa<=1e3, n<=16) must converge within 1500 evaluations with the "
+          "error bound -- that clause is searched, not proved."),
+    note=("Coq kernel; Flocq + FloatAxioms, Coq reals; translator; extraction (ExtrOcamlBasic + ExtrOCamlFloats; stage 2: "
+          "ExtrOcamlZBigInt + Z.ggcd mapped to Zarith's gcd); harness + OCaml drivers; NANO_VERIF hooks in solver.cpp, "
+          "quasi.cpp, lbfgs.cpp (add-only); floating-point rounding of the Eigen linear algebra is outside the theorems "
+          "(compared within 1e-9 of the running error bound); the curvature condition s'y > 0 is a property of the line "
+          "search, not of lbfgs.cpp/quasi.cpp (counted on every run); NDEBUG build."),
+    technique="Coq proof over an extracted trace acceptor + real-analysis bound + exact-rational linear algebra of the "
+              "quasi-Newton updates, trace acceptance of the instrumented solvers, differential correspondence, direct oracle",
     design="DESIGN.md section 2, C01")
 
 VARIANTS = ["rel"]
 
+QHARNESS = "c01_quasi"
+
+
+def _build_qdriver():
+    """the extracted model uses Zarith (ExtrOcamlZBigInt): private variant of vlib.build_ocaml (as C09/C14); the extracted
+    module shadows Zarith's Z, which the driver reaches as ZZ"""
+    odir = os.path.join(vlib.WORK, "ocaml")
+    os.makedirs(odir, exist_ok=True)
+    exe = os.path.join(odir, "c01q_driver")
+    model = os.path.join(vlib.COQ, "extracted", "c01q_model.ml")
+    driver = os.path.join(vlib.ROOT, "ocaml", "c01q_driver.ml")
+    with vlib.Lock("ocaml-c01q_driver"):
+        srcs = [model, model + "i", driver]
+        for s in srcs:
+            if not os.path.exists(s):
+                raise vlib.CheckError("missing %s (extraction failed?)" % s)
+        if os.path.exists(exe) and all(os.path.getmtime(s) <= os.path.getmtime(exe) for s in srcs):
+            return exe
+        bd = os.path.join(odir, "c01q_driver.build")
+        vlib.sh("rm -rf %s && mkdir -p %s" % (shlex.quote(bd), shlex.quote(bd)))
+        for s in (model, model + "i"):
+            vlib.sh("cp %s %s/" % (shlex.quote(s), shlex.quote(bd)))
+        with open(os.path.join(bd, "driver_main.ml"), "w") as f:
+            f.write("module ZZ = Z\nopen C01q_model\n# 1 \"c01q_driver.ml\"\n")
+            f.write(open(driver).read())
+        cmd = "ocamlfind ocamlopt -O3 -w -a -package zarith -linkpkg c01q_model.mli c01q_model.ml driver_main.ml -o %s" % shlex.quote(exe)
+        rc, out = vlib.sh(cmd, cwd=bd, timeout=600)
+        if rc != 0:
+            raise vlib.CheckError("ocaml build of c01q_driver failed:\n%s" % out[-3000:])
+    return exe
+
 
 def setup():
     c02.setup()
+    vlib.build_harness(QHARNESS, "rel")
+    try:
+        _build_qdriver()
+    except vlib.CheckError:
+        pass  # extraction not built yet: the stage builds it after coq_check
+
+
+def _event(lines, rid, k):
+    """the QRUN header and the k-th hook event of run rid (the replay of a quasi-Newton violation)"""
+    hdr = [l for l in lines if l.startswith("QRUN %s " % rid)]
+    ev = [l for l in lines if l.startswith(("QU %s %s " % (rid, k), "LD %s %s " % (rid, k)))]
+    return [l[:400] for l in hdr[:1]] + [l[:40000] for l in ev[:1]]
+
+
+def quasi_stage(tier):
+    """stage 2: Coq development C01Q + correspondence of the hook events + the proved properties on the implementation"""
+    r = vlib.Run("C01", tier)
+    cres = vlib.coq_check("C01Q", targets=["theories/Extract_C01Q.vo", "theories/Properties_C01Q.vo"])
+    exe = vlib.build_harness(QHARNESS, "rel")
+    drv = None
+    try:
+        drv = _build_qdriver()
+    except (vlib.CheckError, OSError):
+        if cres["ok"]:
+            raise
+    rc, out = vlib.sh([exe, tier], timeout=3000, env={"VERIF_SEED": str(r.seed)})
+    lines = [l for l in out.split("\n") if l]
+    done = [l for l in lines if l.startswith("DONE ")]
+    fails = [l for l in lines if l.startswith("FAIL ")]
+    replay_cmd = "VERIF_SEED=%d %s %s" % (r.seed, exe, tier)
+    if rc != 0 or not done:
+        last = [l[:300] for l in lines if l.startswith("QRUN ")][-1:]
+        r.violation("quasi-crash", {"kind": "implementation crashed / did not terminate (exit %s)" % rc, "last_run": last,
+                                    "tail": [l[:400] for l in lines[-6:]], "replay_cmd": replay_cmd}, fingerprint="quasi-crash")
+    for i, l in enumerate(fails[:3]):
+        r.violation("quasi-impl-%d" % i, {"kind": "hook event layout / storage order check failed", "what": l[:1000],
+                                          "replay_cmd": replay_cmd})
+    stats = {}
+    mism, pf = [], []
+    if drv:
+        feed = "\n".join(l for l in lines if l.startswith(("QRUN ", "QU ", "LD "))) + "\n"
+        rc2, mout = vlib.sh([drv], input=feed, timeout=3000)
+        for l in mout.split("\n"):
+            if l.startswith("MISMATCH"):
+                mism.append(l)
+            elif l.startswith("PROPFAIL"):
+                pf.append(l)
+            elif l.startswith("MODEL-DONE"):
+                stats = {k: int(v) for k, v in re.findall(r"(\w+)=(\d+)", l)}
+        if rc2 != 0 or not stats.get("checked"):
+            r.violation("quasi-driver", {"kind": "model driver failed", "out": mout[-2000:]}, no_input=True)
+
+        def report(tag, kind, group):
+            seen = set()
+            for l in group:
+                what = l.split(" ", 2)[1]
+                if what in seen or len(seen) >= 3:
+                    continue
+                seen.add(what)
+                m = re.search(r"RUN (\d+) EV (\d+)", l)
+                rid, k = (m.group(1), m.group(2)) if m else ("?", "?")
+                same = [x for x in group if x.split(" ", 2)[1] == what]
+                r.violation("quasi-%s-%s" % (tag, what[:30]),
+                            {"kind": kind, "what": l[:3000], "cases_of_this_kind": len(same), "event": _event(lines, rid, k),
+                             "replay_cmd": "%s %s | %s" % (replay_cmd, rid, drv)})
+        # a proved property that fails on the implementation's own numbers: concrete failing input
+        report("prop", "a proved property of the quasi-Newton update / L-BFGS direction fails on the numbers the "
+                       "implementation produced (exact arithmetic on the recorded doubles)", pf)
+        # the exact model of the update this solver id applies disagrees with the recorded result beyond 1e-9 of the
+        # running error bound: the implementation left the modelled (proved) algebra on this very input
+        report("corr", "the implementation's H_after / two-loop result differs from the exact model beyond 1e-9 relative "
+                       "to the running error bound of the summed terms", mism)
+    vlib.handle_coq_failure(r, cres)
+    return r, cres, stats, lines, mism, pf, fails
+
+
+def _merge(r, cres, stats, lines, mism, pf, fails, rc1, t0):
+    """fold stage 2 into evidence/C01.json written by stage 1"""
+    path = os.path.join(vlib.OUTDIR, "evidence", "C01.json")
+    try:
+        ev = json.load(open(path))
+    except (OSError, ValueError):
+        ev = {"property_id": "C01", "tier": r.tier, "seed": r.seed, "level": "proof", "coverage": {}, "assumptions": [],
+              "wall_s": 0, "violations": 0}
+    cov = ev.setdefault("coverage", {})
+    nk = len(cres.get("kernels", []))
+    cov["obligations"] = cov.get("obligations", 0) + len(cres["theorems"]) + nk
+    cov["discharged"] = cov.get("discharged", 0) + cres["discharged"] + (nk if not cres.get("translator_failed") else 0)
+    cov["theorems"] = list(cov.get("theorems", [])) + list(cres["theorems"])
+    cov["translated_kernels"] = list(cov.get("translated_kernels", [])) + list(cres.get("kernels", []))
+    cov["checker_cmd"] = (cov.get("checker_cmd", "") + " ; make -C coq theories/Properties_C01Q.vo && coqc theories/Properties_C01Q.v "
+                          "(Print Assumptions)").strip(" ;")
+    tb = list(cov.get("trusted_base", []))
+    for a in ["axiom: " + a for a in cres["axioms"]] + [
+            "tools/translate.py (8 kernels of quasi.cpp / lbfgs.cpp: Fletcher's branch tests, the SR1 safeguard test, the "
+            "L-BFGS history bound and loop indices)",
+            "extraction of the quasi-Newton model: ExtrOcamlBasic + ExtrOcamlZBigInt, Z.ggcd mapped to Zarith's gcd "
+            "(Qred of the canonical rationals)",
+            "ocaml/c01q_driver.ml (exact double->Q conversion, running-error tolerance, exact LDL'), harness/c01_quasi.cpp",
+            "NANO_VERIF hooks ev_quasi_update (quasi.cpp) and ev_lbfgs_direction (lbfgs.cpp) (add-only)"]:
+        if a not in tb:
+            tb.append(a)
+    cov["trusted_base"] = tb
+    cov["coq_files"] = sorted(set(list(cov.get("coq_files", [])) + list(cres.get("files", []))))
+    if r.tier == "thorough" and cres.get("ok"):
+        r.pid = "C01Q"
+        try:
+            vlib.coqchk_recheck(r)
+        finally:
+            r.pid = "C01"
+        cov["coqchk_C01Q"] = r.coverage.pop("coqchk", None)
+    solvers = collections.Counter()
+    funcs = collections.Counter()
+    dims = collections.Counter()
+    for l in lines:
+        if l.startswith("QRUN "):
+            solvers[re.search(r"solver=(\S+)", l).group(1) + "/" + re.search(r"init=(\S+)", l).group(1)] += 1
+            funcs[re.search(r"func=([^\[ ]+)", l).group(1)] += 1
+            dims[re.search(r" n=(\d+)", l).group(1)] += 1
+    q = {k: v for k, v in stats.items() if k not in ("checked", "mismatches", "propfails")}
+    cov["quasi_updates_checked"] = stats.get("quasi_updates_checked", 0)
+    cov["lbfgs_directions_checked"] = stats.get("lbfgs_directions_checked", 0)
+    cov["quasi_model_stats"] = q
+    cov["quasi_mismatches"] = len(mism)
+    cov["quasi_property_failures"] = len(pf)
+    cov["quasi_impl_direct_failures"] = len(fails)
+    cov["quasi_solver_histogram"] = dict(solvers)
+    cov["quasi_function_histogram"] = dict(funcs.most_common(40))
+    cov["quasi_dims_histogram"] = dict(dims)
+    cov["quasi_rule"] = ("bfgs/dfp/sr1/hoshino/fletcher x {identity, scaled} initialisation x (2 of 3 runs: quadratic class "
+                         "s*Q*diag*Q' with kappa in {1, 1e3} u log-uniform, s in {1e-3, 1e3} u log-uniform; 1 of 3: a registered "
+                         "smooth function) x n in {1,2,3,4,5,6,8,12,16} x epsilon x 1 of 4 a random lsearchk; sr1::r in {1e-8} u "
+                         "[1e-12, 0.9]; lbfgs with history 1..30; the first 24 (thorough: 60) hook events of every run; all from "
+                         "VERIF_SEED. evaluations below = hook events recomputed by the model")
+    cov["evaluations"] = cov.get("evaluations", 0) + stats.get("checked", 0)
+    cov["quasi_samples"] = [l[:300] for l in lines if l.startswith(("QRUN 0 ", "QU 0 0 ", "QRUN 50 ", "LD 50 1 "))][:4]
+    cov["unproved_clauses_searched"] = list(cov.get("unproved_clauses_searched", [])) + [
+        "floating point: |implementation - exact update / two-loop result| <= 1e-9 * running error bound, entry by entry",
+        "the stored pairs satisfy s'y > 0 (curvature condition of the line search; neither lbfgs.cpp nor quasi.cpp tests it): "
+        "counted per run (updates_nonpositive_curvature, lbfgs_events_with_nonpositive_curvature_pair)",
+        "H_before of every update is the initialisation, the previous H_after, or the identity after a restart; the L-BFGS "
+        "history is the previous one plus the newest pair, truncated from the front at solver::lbfgs::history (or cleared)"]
+    ev["assumptions"] = list(ev.get("assumptions", [])) + [
+        "quasi-Newton stage: exact arithmetic (the theorems are over ordered fields; rounding is compared, not proved)",
+        "non-finite hook events (division by a zero curvature) are skipped and counted"]
+    ev["violations"] = ev.get("violations", 0) + len(r.violations)
+    ev["wall_s"] = round(time.time() - t0, 2)
+    json.dump(ev, open(path, "w"), indent=1, default=str)
+    for fp, what in r.known_hits:
+        print("KNOWN-FINDING: property=C01 %s" % what)
+    for p, note in r.violations[:5]:
+        print(("VIOLATION property=C01 replay=%s %s" % (p, note)).rstrip())
+    return 1 if (rc1 or r.violations) else 0
 
 
 def run(tier, replay=None):
-    return c02.run_shared(
+    t0 = time.time()
+    rc1 = c02.run_shared(
         "C01", "c01", tier,
         ["Coq standard-library reals (classical axioms) for the error bound"],
         ["L-BFGS / BFGS return `converged` after at most 1500 function+gradient evaluations on every quadratic of the class "
@@ -42,3 +249,11 @@ def run(tier, replay=None):
          "snapshots whose gradient contains a NaN are excluded from the bit-exact recomputation of the flag "
          "(Eigen's lpNorm<Infinity> is unspecified there)",
          "generated quadratics evaluate with plain scalar loops (bit-reproducible); registered functions use Eigen"])
+    try:
+        res = quasi_stage(tier)
+    except vlib.CheckError as ex:
+        # the quasi-Newton machinery could not be rebuilt against the working tree: the tie is broken
+        r = vlib.Run("C01", tier)
+        r.violation("quasi-build", {"kind": "build-failure", "detail": str(ex)[-4000:]}, no_input=True)
+        res = (r, {"theorems": [], "discharged": 0, "axioms": [], "kernels": [], "ok": False}, {}, [], [], [], [])
+    return _merge(*res, rc1, t0)
